@@ -3,7 +3,7 @@
 that should notice it, reverts, and writes /verif/seeded/<id>/result.json + /verif/seeded/matrix.json."""
 import json, os, re, subprocess, sys, time
 SEEDED = "/verif/seeded"
-EXTRA = {"C01": ["C10", "C11"], "C02": ["C03", "C09"], "C10": ["C01"], "C06": ["C05"], "C17": ["C15"]}
+EXTRA = {"C01": ["C10", "C11"], "C02": ["C03", "C09"], "C10": ["C01"], "C06": ["C05"], "C17": ["C15"], "C16": ["C20"], "C09": ["C01"]}
 def sh(cmd, **kw): return subprocess.run(cmd, shell=True, capture_output=True, text=True, **kw)
 only = sys.argv[1:]
 matrix = {}
